@@ -91,7 +91,16 @@ func (r *REPL) Run(line string) error {
 		// Detect that we should start a continuation line
 		// FIXME detect EOF properly!
 		errText := errorMessage(err)
-		if strings.Contains(errText, "unexpected EOF while parsing") || strings.Contains(errText, "EOF while scanning triple-quoted string literal") {
+		inString := strings.Contains(errText, "EOF while scanning triple-quoted string literal")
+		incomplete := inString || strings.Contains(errText, "unexpected EOF while parsing")
+		if incomplete && r.continuation && line == "" && !inString && !parser.OpenBrackets(toCompile) {
+			// The blank line has terminated the statement, so
+			// if it still lacks something (the body of "if x:",
+			// the except clause of a try) that is an error
+			// rather than a request for more input.
+			incomplete = false
+		}
+		if incomplete {
 			// A line holding only white space or a comment
 			// is not the start of a statement
 			stripped := strings.TrimSpace(toCompile)
